@@ -1,8 +1,97 @@
 import Qentem.Driver.Proto
+import Qentem.Model.NumToStr
+import Qentem.Model.FmtSpec
 namespace Qentem.Driver.NumToStr
-open Qentem.Driver
+open Qentem.Driver Qentem.NumToStr
 
-/-- Stub: replaced by the area's model driver. `op` is the first token of the line. -/
-def handle (_op : String) (_args : List String) : String := "bad-op"
+/-! Driver of the number-formatting model (C10, C11).  Same line protocol as
+`harness/numtostr_harness.cpp`:
+
+* `n2sr  <d|f> <hexbits> <prec> <fmt> <w> <pre>` → units appended by the **model** after `<pre>`
+* `n2sra <d|f> <hexbits> <w> <pre>`             → the same for prec 0..40 × fmt 0,1,2, joined by `;`
+* `n2si  <bits> <signed> <decimal> <w> <pre>` / `n2sir <bits> <decimal>` → integer paths of the model
+* `n2sspec  <d|f> <hexbits> <prec> <fmt>`        → the **reference** text (`FmtSpec`, C standard)
+* `n2sspeca <d|f> <hexbits>`                     → reference texts for prec 0..40 × fmt 0,1,2, joined by `;`
+* `n2sread <d|f> <units>`                        → reference reading: hex bits of the nearest value, or `none`
+* `n2srt <d|f> <hexbits>`                        → `<hex> <units>`: model text at 17 / 9 digits and its reference reading
+-/
+
+def hexVal (c : Char) : Option Nat :=
+  if '0' ≤ c ∧ c ≤ '9' then some (c.toNat - '0'.toNat)
+  else if 'a' ≤ c ∧ c ≤ 'f' then some (c.toNat - 'a'.toNat + 10)
+  else if 'A' ≤ c ∧ c ≤ 'F' then some (c.toNat - 'A'.toNat + 10)
+  else none
+
+def parseHex (s : String) : Option Nat :=
+  if s.isEmpty then none else
+  s.toList.foldlM (fun a c => (hexVal c).map (fun v => a * 16 + v)) 0
+
+def hexDigit (n : Nat) : Char := if n < 10 then Char.ofNat (48 + n) else Char.ofNat (87 + n)
+
+def showHex (width n : Nat) : String :=
+  String.ofList ((List.range width).reverse.map (fun i => hexDigit ((n >>> (4 * i)) % 16)))
+
+def showM (pre : List Nat) (r : M (List Nat)) : String :=
+  match r with
+  | .ok s =>
+    if s.take pre.length == pre then showNats (s.drop pre.length) else "prefix-disturbed"
+  | .error f => "FAULT model:" ++ f.name
+
+def cfgOf (k : String) : Option Cfg := if k == "d" then some f64 else if k == "f" then some f32 else none
+
+def specFmt (f : Nat) : FmtSpec.Fmt := if f = 1 then .fixed else if f = 2 then .semiFixed else .default
+
+def specText (k : String) (bits p f : Nat) : List Nat :=
+  if k == "d" then FmtSpec.format64 bits p (specFmt f) else FmtSpec.format32 bits p (specFmt f)
+
+def allPF : List (Nat × Nat) := (List.range 41).flatMap (fun p => [(p, 0), (p, 1), (p, 2)])
+
+def handle (op : String) (args : List String) : String :=
+  match op, args with
+  | "n2sr", [k, hx, p, f, _w, pre] =>
+    match cfgOf k, parseHex hx, p.toNat?, f.toNat?, parseNats pre with
+    | some c, some bits, some p, some f, some pre => showM pre (realToString c pre bits p f)
+    | _, _, _, _, _ => "bad-op"
+  | "n2sra", [k, hx, _w, pre] =>
+    match cfgOf k, parseHex hx, parseNats pre with
+    | some c, some bits, some pre =>
+      ";".intercalate (allPF.map (fun (p, f) => showM pre (realToString c pre bits p f)))
+    | _, _, _ => "bad-op"
+  | "n2si", [b, sg, dec, _w, pre] =>
+    match b.toNat?, parseBool sg, dec.toInt?, parseNats pre with
+    | some b, some sg, some v, some pre =>
+      let raw := (v % (2 ^ b : Int)).toNat
+      showM pre (intToString pre (b / 8) sg raw)
+    | _, _, _, _ => "bad-op"
+  | "n2sir", [b, dec] =>
+    match b.toNat?, dec.toNat? with
+    | some b, some v => showM [] (intRev (b / 8) (v % 2 ^ b))
+    | _, _ => "bad-op"
+  | "n2sspec", [k, hx, p, f] =>
+    match parseHex hx, p.toNat?, f.toNat? with
+    | some bits, some p, some f => if k == "d" || k == "f" then showNats (specText k bits p f) else "bad-op"
+    | _, _, _ => "bad-op"
+  | "n2sspeca", [k, hx] =>
+    match parseHex hx with
+    | some bits =>
+      if k == "d" || k == "f" then ";".intercalate (allPF.map (fun (p, f) => showNats (specText k bits p f))) else "bad-op"
+    | none => "bad-op"
+  | "n2sread", [k, u] =>
+    match parseNats u with
+    | some t =>
+      let r := if k == "d" then (FmtSpec.readBits64 t).map (showHex 16) else (FmtSpec.readBits32 t).map (showHex 8)
+      r.getD "none"
+    | none => "bad-op"
+  | "n2srt", [k, hx] =>
+    match parseHex hx with
+    | some bits =>
+      let r := if k == "d" then format17 bits else format9 bits
+      match r with
+      | .ok t =>
+        let back := if k == "d" then (FmtSpec.readBits64 t).map (showHex 16) else (FmtSpec.readBits32 t).map (showHex 8)
+        back.getD "none" ++ " " ++ showNats t
+      | .error f => "FAULT model:" ++ f.name
+    | none => "bad-op"
+  | _, _ => "bad-op"
 
 end Qentem.Driver.NumToStr
